@@ -1122,7 +1122,9 @@ func (t *Tree) Compile(file string, args []string, out io.Writer) (err error) {
 			printJump(ko)
 			_print("}")
 		case TypeStateChange:
-			_print("\n   %v", n)
+			/* a block of its own, like an action: a declaration in the code must
+			   neither be jumped over nor meet the one of another state change */
+			_print("\n   {\n%v\n}", strings.TrimSpace(n.String()))
 		case TypeAction:
 		case TypeCommit:
 		case TypePush:
